@@ -101,7 +101,43 @@ func sameSource(a, b ssa.Value) bool {
 	}
 	a1, f1, ok1 := cellOfLoad(a)
 	a2, f2, ok2 := cellOfLoad(b)
-	return ok1 && ok2 && a1 == a2 && f1 == f2
+	if ok1 && ok2 && a1 == a2 && f1 == f2 {
+		return true
+	}
+	// a is read back from the field of a local struct that b was stored into (g.Output after
+	// g := Gate{Output: b}, also through the temporary of the literal)
+	if ok1 && b.Referrers() != nil {
+		for _, r := range *b.Referrers() {
+			st, isSt := r.(*ssa.Store)
+			if !isSt || st.Val != b {
+				continue
+			}
+			fa, isFA := st.Addr.(*ssa.FieldAddr)
+			if !isFA || fa.Field != f1 {
+				continue
+			}
+			al, isAl := fa.X.(*ssa.Alloc)
+			if !isAl {
+				continue
+			}
+			if al == a1 {
+				return true
+			}
+			// the literal's temporary copied whole into the variable
+			if al.Referrers() != nil {
+				for _, r2 := range *al.Referrers() {
+					if ld, isLd := r2.(*ssa.UnOp); isLd && ld.Op == token.MUL && ld.X == ssa.Value(al) && ld.Referrers() != nil {
+						for _, r3 := range *ld.Referrers() {
+							if s3, isS3 := r3.(*ssa.Store); isS3 && s3.Val == ssa.Value(ld) && s3.Addr == ssa.Value(a1) {
+								return true
+							}
+						}
+					}
+				}
+			}
+		}
+	}
+	return false
 }
 
 type validator struct {
@@ -109,6 +145,9 @@ type validator struct {
 	seen  map[ssa.Value]bool
 	why   string
 	depth int
+	// boundAt: where the field was assigned, if that is not on every path to the store of the gate (an index
+	// into the decoded wires is judged there)
+	boundAt *ssa.BasicBlock
 }
 
 // validated: at block at, the wire value v has passed Seen.<kind> successfully.
@@ -132,6 +171,13 @@ func (vd *validator) validated(v ssa.Value, kind string, at *ssa.BasicBlock) boo
 		return true
 	case *ssa.UnOp:
 		if ia, ok := t.X.(*ssa.IndexAddr); ok && t.Op == token.MUL {
+			if al, isArr := ia.X.(*ssa.Alloc); isArr {
+				if k, isConst := ia.Index.(*ssa.Const); isConst && k.Value != nil && vd.arrayValidated(al, k.Int64(), kind, at) {
+					return true
+				}
+				// an element of a local array: it may still be checked by itself below
+				break
+			}
 			return vd.sliceValidated(ia.X, kind)
 		}
 	}
@@ -290,17 +336,41 @@ func C14valid(p *load.Program, run *report.Run) {
 				stores++
 				// the literal: field stores into the temporary the stored value is loaded from
 				fields := map[string]ssa.Value{}
-				if u, ok := st.Val.(*ssa.UnOp); ok {
-					if lit, ok := u.X.(*ssa.Alloc); ok {
-						for _, r := range *lit.Referrers() {
-							if fa, ok := r.(*ssa.FieldAddr); ok {
-								for _, r2 := range *fa.Referrers() {
-									if s2, ok := r2.(*ssa.Store); ok {
-										fields[fieldName(fa)] = s2.Val
+				// a field assigned only on some paths (g.Input1 = … under `if n1 > 1`) is judged where it is assigned
+				fieldAt := map[string]*ssa.BasicBlock{}
+				var collect func(lit *ssa.Alloc, depth int)
+				collect = func(lit *ssa.Alloc, depth int) {
+					if lit.Referrers() == nil || depth > 2 {
+						return
+					}
+					// the variable was first given a whole literal: `g := Gate{…}` copies a temporary
+					for _, r := range *lit.Referrers() {
+						if s0, ok := r.(*ssa.Store); ok && s0.Addr == ssa.Value(lit) {
+							if u0, ok := s0.Val.(*ssa.UnOp); ok {
+								if lit0, ok := u0.X.(*ssa.Alloc); ok && lit0 != lit {
+									collect(lit0, depth+1)
+								}
+							}
+						}
+					}
+					for _, r := range *lit.Referrers() {
+						if fa, ok := r.(*ssa.FieldAddr); ok && fa.Referrers() != nil {
+							for _, r2 := range *fa.Referrers() {
+								if s2, ok := r2.(*ssa.Store); ok && s2.Addr == ssa.Value(fa) {
+									fields[fieldName(fa)] = s2.Val
+									if !s2.Block().Dominates(b) {
+										fieldAt[fieldName(fa)] = s2.Block()
+									} else {
+										delete(fieldAt, fieldName(fa))
 									}
 								}
 							}
 						}
+					}
+				}
+				if u, ok := st.Val.(*ssa.UnOp); ok {
+					if lit, ok := u.X.(*ssa.Alloc); ok {
+						collect(lit, 0)
 					}
 				}
 				key := fmt.Sprintf("circuit.%s/gates[]=#%d", name, stores)
@@ -333,6 +403,7 @@ func C14valid(p *load.Program, run *report.Run) {
 						continue
 					}
 					run.Count("gate-wire-fields", 1)
+					vd.boundAt = fieldAt[fld]
 					if !vd.validated(v, kind, b) {
 						run.Violate("gate-wires-validated", key+"/"+fld, p.Rel(st.Pos()), vd.why, nil)
 						okAll = false
@@ -704,4 +775,239 @@ func gateValidatorWhy(callee *ssa.Function) string {
 		}
 	}
 	return ""
+}
+
+// arrayValidated: the wires of a gate were decoded into a local array; a loop over arr[:H] has validated
+// every element below H (each passed Seen.<kind> where the loop goes on), the loop is over at `at`, and the
+// element asked for has an index below H there.
+func (vd *validator) arrayValidated(arr *ssa.Alloc, k int64, kind string, at *ssa.BasicBlock) bool {
+	if arr.Referrers() == nil {
+		return false
+	}
+	for _, r := range *arr.Referrers() {
+		var elems []*ssa.IndexAddr
+		var high ssa.Value
+		switch t := r.(type) {
+		case *ssa.Slice:
+			if t.Low != nil || t.Referrers() == nil {
+				continue
+			}
+			high = t.High
+			for _, r2 := range *t.Referrers() {
+				if ia, ok := r2.(*ssa.IndexAddr); ok {
+					elems = append(elems, ia)
+				}
+			}
+		default:
+			continue
+		}
+		for _, ia := range elems {
+			ph, ok := ia.Index.(*ssa.Phi)
+			if !ok {
+				// the index of a range loop may be a +1 of the carried value
+				if bo, isBO := ia.Index.(*ssa.BinOp); isBO {
+					ph, ok = bo.X.(*ssa.Phi)
+				}
+				if !ok {
+					continue
+				}
+			}
+			header := ph.Block()
+			if !header.Dominates(at) || ia.Referrers() == nil {
+				continue
+			}
+			// the block from which the loop goes round again
+			var back *ssa.BasicBlock
+			for _, p := range header.Preds {
+				if header.Dominates(p) {
+					back = p
+				}
+			}
+			if back == nil || back.Dominates(at) {
+				continue
+			}
+			okElem := false
+			for _, r3 := range *ia.Referrers() {
+				if ld, ok := r3.(*ssa.UnOp); ok && ld.Op == token.MUL {
+					sub := &validator{fn: vd.fn, seen: map[ssa.Value]bool{}, depth: vd.depth}
+					// the element itself must pass the check, not (recursively) the array rule
+					if sub.directlyValidated(ld, kind, back) || sub.validatedOnEdge(ld, kind, back, header) {
+						okElem = true
+					}
+				}
+			}
+			if !okElem {
+				continue
+			}
+			if high == nil {
+				return true
+			}
+			bat := at
+			if vd.boundAt != nil {
+				bat = vd.boundAt
+			}
+			if atLeast(high, k+1, bat, 0) {
+				return true
+			}
+		}
+	}
+	return false
+}
+
+// directlyValidated: a dominating successful Seen.<kind>(v), without the structural fallbacks.
+func (vd *validator) directlyValidated(v ssa.Value, kind string, at *ssa.BasicBlock) bool {
+	for _, b := range vd.fn.Blocks {
+		for _, ins := range b.Instrs {
+			c, ok := ins.(*ssa.Call)
+			if !ok || c.Call.StaticCallee() == nil || (c.Call.StaticCallee().String() != "("+load.Module+"/circuit.Seen)."+kind && c.Call.StaticCallee().String() != "(*"+load.Module+"/circuit.Seen)."+kind) {
+				continue
+			}
+			if !sameSource(c.Call.Args[1], v) {
+				continue
+			}
+			var errV, okV ssa.Value
+			if kind == "Set" {
+				errV = c
+			}
+			if c.Referrers() != nil {
+				for _, r := range *c.Referrers() {
+					if ex, isEx := r.(*ssa.Extract); isEx {
+						if ex.Index == 0 {
+							okV = ex
+						} else {
+							errV = ex
+						}
+					}
+				}
+			}
+			if errV == nil || !errNilAt(errV, at) {
+				continue
+			}
+			if kind == "Get" && (okV == nil || !impliedBool(okV, true, at)) {
+				continue
+			}
+			return true
+		}
+	}
+	return false
+}
+
+// atLeast: the integer v is at least m wherever block at is reached.
+func atLeast(v ssa.Value, m int64, at *ssa.BasicBlock, depth int) bool {
+	if depth > 4 {
+		return false
+	}
+	v = stripConv(v)
+	switch t := v.(type) {
+	case *ssa.Const:
+		return t.Value != nil && t.Int64() >= m
+	case *ssa.Phi:
+		if len(t.Edges) == 0 {
+			return false
+		}
+		for _, e := range t.Edges {
+			if !atLeast(e, m, at, depth+1) {
+				return false
+			}
+		}
+		return true
+	}
+	fn := at.Parent()
+	for _, b := range fn.Blocks {
+		iff, ok := b.Instrs[len(b.Instrs)-1].(*ssa.If)
+		if !ok {
+			continue
+		}
+		bo, ok := iff.Cond.(*ssa.BinOp)
+		if !ok {
+			continue
+		}
+		for side, succ := range b.Succs {
+			if len(succ.Preds) != 1 || !(succ == at || succ.Dominates(at)) {
+				continue
+			}
+			taken := side == 0
+			x, y := stripConv(bo.X), stripConv(bo.Y)
+			cx, isCx := x.(*ssa.Const)
+			cy, isCy := y.(*ssa.Const)
+			switch {
+			case bo.Op == token.GTR && x == v && isCy && taken && cy.Int64()+1 >= m:
+				return true
+			case bo.Op == token.LSS && y == v && isCx && taken && cx.Int64()+1 >= m:
+				return true
+			case bo.Op == token.GEQ && x == v && isCy && taken && cy.Int64() >= m:
+				return true
+			case bo.Op == token.LEQ && y == v && isCx && taken && cx.Int64() >= m:
+				return true
+			case bo.Op == token.LEQ && x == v && isCy && !taken && cy.Int64()+1 >= m:
+				return true
+			case bo.Op == token.LSS && x == v && isCy && !taken && cy.Int64() >= m:
+				return true
+			case bo.Op == token.NEQ && !taken, bo.Op == token.EQL && taken:
+				// v == w here
+				var w ssa.Value
+				if x == v {
+					w = y
+				} else if y == v {
+					w = x
+				}
+				if w != nil && atLeast(w, m, at, depth+1) {
+					return true
+				}
+			}
+		}
+	}
+	return false
+}
+
+// validatedOnEdge: as directlyValidated, where the last test (`if !seen { return … }`) sits at the end of
+// the block from which the loop goes round: the outcome that leads back to the header is the good one.
+func (vd *validator) validatedOnEdge(v ssa.Value, kind string, from, to *ssa.BasicBlock) bool {
+	iff, ok := from.Instrs[len(from.Instrs)-1].(*ssa.If)
+	if !ok || len(from.Succs) != 2 {
+		return false
+	}
+	for _, b := range vd.fn.Blocks {
+		for _, ins := range b.Instrs {
+			c, ok := ins.(*ssa.Call)
+			if !ok || c.Call.StaticCallee() == nil || (c.Call.StaticCallee().String() != "("+load.Module+"/circuit.Seen)."+kind && c.Call.StaticCallee().String() != "(*"+load.Module+"/circuit.Seen)."+kind) {
+				continue
+			}
+			if !sameSource(c.Call.Args[1], v) || c.Referrers() == nil {
+				continue
+			}
+			var errV, okV ssa.Value
+			if kind == "Set" {
+				errV = c
+			}
+			for _, r := range *c.Referrers() {
+				if ex, isEx := r.(*ssa.Extract); isEx {
+					if ex.Index == 0 {
+						okV = ex
+					} else {
+						errV = ex
+					}
+				}
+			}
+			if errV == nil || kind != "Get" || okV == nil {
+				continue
+			}
+			// err == nil on the way into `from`, and the edge from -> to is the one on which seen holds
+			if !errNilAt(errV, from) {
+				continue
+			}
+			cond := iff.Cond
+			neg := false
+			if u, isU := cond.(*ssa.UnOp); isU && u.Op == token.NOT {
+				cond, neg = u.X, true
+			}
+			if cond != okV {
+				continue
+			}
+			if (!neg && from.Succs[0] == to) || (neg && from.Succs[1] == to) {
+				return true
+			}
+		}
+	}
+	return false
 }
